@@ -637,10 +637,17 @@ def replay(f):
         mask = None if p['mask'] == 'none' else mask_from_witness(
             w, 'm', (H, W))
         bw = None if p['bw'] is None else tuple(p['bw'])
+        d0 = d.copy()
+        m0 = None if mask is None else mask.copy()
         with warnings.catch_warnings():
             warnings.simplefilter('ignore')
             tbl = find_peaks(d, t, mask=mask, border_width=bw,
                              npeaks=p['npeaks'], **FOOT[p['foot']])
+        if 'input-modified' in f['key']:
+            bad = not np.array_equal(d, d0, equal_nan=True) or (
+                mask is not None and not np.array_equal(mask, m0))
+            return bad, f'input modified: {bad}'
+
         nb = _nbhd(p['foot'])
         tt = np.broadcast_to(t, (H, W))
         E = []
